@@ -408,15 +408,56 @@ def gen_formula(g: Grammar, rng: random.Random) -> List[Any]:
         focus = [var] + [v for v in new_env if v not in env and v != var]
         node[5] = gen_body(ctx, new_env, focus, depth=rng.choice([0, 0, 1, 1, 2]))
         parts.append(node)
-    if len(parts) == 1:
-        return parts[0]
-    return [rng.choice(["and", "and", "or"])] + parts
+    f = parts[0] if len(parts) == 1 else [rng.choice(["and", "and", "or"])] + parts
+    return bind_unused(ctx, f, {"start": "<start>"})
 
 
 def formula_size(f) -> int:
     if not isinstance(f, list):
         return 0
     return 1 + sum(formula_size(x) for x in f[1:] if isinstance(x, list))
+
+
+def mentions(f, var: str) -> bool:
+    """Does variable `var` occur (as a term, predicate argument or in-variable)?"""
+    if isinstance(f, list):
+        if len(f) == 2 and f[0] == "v" and f[1] == var:
+            return True
+        if f and f[0] in ("forall", "exists") and len(f) == 6:
+            return f[4] == var or mentions(f[5], var)
+        return any(mentions(x, var) for x in f)
+    return False
+
+
+def bind_unused(ctx: "Ctx", f, env: Dict[str, str], keep_prob: float = 0.12):
+    """Most quantifiers (without match expression) whose variable does not occur in
+    their body get an atom about that variable conjoined / disjoined, so that the bulk
+    of the workload stays outside the known 'unused quantified variable' finding."""
+    op = f[0]
+    if op in ("forall", "exists"):
+        _, typ, var, mexpr, in_var, body = f
+        new_env = dict(env)
+        new_env[var] = typ
+        if mexpr is not None:
+            for el in mexpr:
+                if el[0] == "b":
+                    new_env[el[1]] = el[2]
+        body = bind_unused(ctx, body, new_env, keep_prob)
+        if mexpr is None and not mentions(body, var) and ctx.rng.random() >= keep_prob:
+            atom = None
+            for _ in range(4):
+                atom = smt_atom_1(ctx, var, typ)
+                if atom is not None:
+                    break
+            if atom is None:
+                atom = ["smt", [">=", ["str.len", ["v", var]], ["i", 0]]]
+            body = [ctx.rng.choice(["and", "or"]) if op == "exists" else ctx.rng.choice(["and", "or", "implies"]), atom, body]
+        return [op, typ, var, mexpr, in_var, body]
+    if op in ("forall_int", "exists_int"):
+        return [op, f[1], bind_unused(ctx, f[2], env, keep_prob)]
+    if op in ("and", "or", "not", "implies", "iff", "xor"):
+        return [op] + [bind_unused(ctx, g, env, keep_prob) for g in f[1:]]
+    return f
 
 
 def features(f, under_forall: bool = False, under_exists: bool = False, out=None) -> List[str]:
@@ -428,6 +469,10 @@ def features(f, under_forall: bool = False, under_exists: bool = False, out=None
     if op in ("forall", "exists"):
         if f[3] is not None:
             out.add(f"{op}_with_match_expression")
+        elif not mentions(f[5], f[2]):
+            # ISLa drops such a quantifier when substituting (unsound for an empty
+            # range: see known findings)
+            out.add("unused_quantified_variable")
         features(f[5], under_forall or op == "forall", under_exists or op == "exists", out)
     elif op in ("forall_int", "exists_int"):
         out.add(op)
